@@ -54,6 +54,22 @@ Proof.
   apply (strop_id_gen py_uni py_isspace cfg_cpp true chk_id_cpp); auto.
 Qed.
 
+(* clause 3 of the property ("already valid, unreserved identifiers are returned unchanged"), for the DOCUMENTED alphabet:
+   DSDL names are ASCII and the encoder's output alphabet is ASCII by design (rule [^a-zA-Z0-9_]+), so "valid identifier" is
+   valid_ident = ASCII [A-Za-z_][A-Za-z0-9_]* for all three languages; "unreserved" is: not in the reserved list, no reserved
+   pattern, and -- C++ [lex.name] 3.1 -- for cpp no `__` anywhere (the configuration expresses the leading/trailing case through
+   the encoding rules ^_{2,} and _{2,}$ instead of a reserved pattern). *)
+Definition std_reserved_extra (l : lang) (t : str) : bool := match l with LCpp => has_dunder t | _ => false end.
+Definition clean_ascii (l : lang) (ty t : str) : bool := clean_lang l ty t && negb (std_reserved_extra l t).
+
+Lemma strop_id_ascii_thm l ty t : str_eqb (lower ty) ty_all = false -> clean_ascii l ty t = true -> strop_lang l ty t = Ok t.
+Proof.
+  intros Hty H. unfold clean_ascii in H. apply andb_prop in H as [H Hx]. apply negb_true_iff in Hx. destruct l.
+  - exact (strop_id_c_thm ty t Hty H).
+  - exact (strop_id_cpp_partial_thm ty t Hty H Hx).
+  - exact (strop_id_py_thm ty t Hty H).
+Qed.
+
 (* "__x": a valid identifier, not in the reserved list, matching no reserved pattern -- and yet rewritten (to zX005FzX005Fx)
    because the cpp configuration encodes leading/trailing runs of underscores (rules ^_{2,} and _{2,}$) *)
 Lemma strop_id_cpp_refuted_thm :
@@ -193,3 +209,8 @@ Proof.
     rewrite (strop_id_cpp_partial_thm ty s1 Hty H1 D1), (strop_id_cpp_partial_thm ty s2 Hty H2 D2) in E. congruence.
   - change (strop_py ty s1 = strop_py ty s2) in E. rewrite (strop_id_py_thm ty s1 Hty H1), (strop_id_py_thm ty s2 Hty H2) in E. congruence.
 Qed.
+
+Lemma strop_injective_on_clean_ascii_thm l ty s1 s2 :
+  str_eqb (lower ty) ty_all = false -> clean_ascii l ty s1 = true -> clean_ascii l ty s2 = true ->
+  strop_lang l ty s1 = strop_lang l ty s2 -> s1 = s2.
+Proof. intros Hty H1 H2 E. rewrite (strop_id_ascii_thm l ty s1 Hty H1), (strop_id_ascii_thm l ty s2 Hty H2) in E. congruence. Qed.
